@@ -93,9 +93,9 @@ def snapshot(obj, depth=0, seen=None):
     if isinstance(obj, pd.DataFrame):
         return ("df", list(obj.columns), obj.to_numpy().tolist(), list(obj.index))
     if isinstance(obj, (xr.DataArray, xr.Dataset)):
-        return ("xr", repr(obj.to_dict()))
+        return {"__xr__": snapshot(obj.to_dict(), depth + 1, seen)}  # nested dicts: key order is irrelevant
     if isinstance(obj, xr.DataTree):
-        return ("dt", repr({k: v.to_dict() for k, v in obj.to_dict().items()}))
+        return {"__dt__": {str(k): snapshot(v.to_dict(), depth + 1, seen) for k, v in obj.to_dict().items()}}
     if id(obj) in seen or depth > 12:
         return "<cycle>"
     if isinstance(obj, dict):
